@@ -4,7 +4,7 @@
    flax/linen/normalization.py (_compute_stats with mask, BatchNorm's running averages).  Values are integers (the
    harness feeds integer-valued float64 arrays); statistics are rationals.  Definitions only. *)
 From Coq Require Import QArith Qabs.
-From Flaxm Require Import Lib.Harness.
+From Flaxm Require Import Lib.Harness Model.NdIndex.
 Open Scope Z_scope.
 
 Definition row := list Z.
@@ -235,3 +235,16 @@ Definition group_norm_ok (tol eps : Q) (use_mean : bool) (xs : list Z) (mask : l
   let var := if use_mean then qmean2 v - qmean v * qmean v else qmean2 v in
   forallb (fun t => let '(x, m, s, b, y) := t in negb m || norm_ok tol eps (inject_Z x) mean var s b y)
           (combine (combine (combine (combine xs mask) scale) bias) ys).
+
+(* ---------------- whole normalisation layers: the model computes the reduction groups itself ---------------- *)
+(* the tensors are given flat (row-major) together with the shape; scale / bias / mask already broadcast to the shape *)
+Definition gather {A} (d : A) (l : list A) (is : list nat) : list A := map (fun i => nth i l d) is.
+Definition norm_groups_ok (tol eps : Q) (use_mean : bool) (groups : list (list nat))
+                          (xs : list Z) (mask : list bool) (scale bias ys : list Q) : bool :=
+  forallb (fun g => group_norm_ok tol eps use_mean (gather 0%Z xs g) (gather true mask g) (gather 0 scale g) (gather 0 bias g) (gather 0 ys g)) groups.
+(* LayerNorm / RMSNorm (use_mean = false) / InstanceNorm (reduction axes 1 .. nd-2): statistics over `red` *)
+Definition layer_norm_ok (tol eps : Q) (use_mean : bool) (shape red : list nat) xs mask scale bias ys : bool :=
+  norm_groups_ok tol eps use_mean (groups_by list_nat_eqb (reduce_key shape red) (prod shape)) xs mask scale bias ys.
+(* GroupNorm with g groups over the last axis *)
+Definition group_norm_layer_ok (tol eps : Q) (shape : list nat) (g : nat) xs mask scale bias ys : bool :=
+  norm_groups_ok tol eps true (groups_by list_nat_eqb (group_key shape g) (prod shape)) xs mask scale bias ys.
